@@ -491,8 +491,8 @@ func init() {
 		px, py, pz := g.R.Range(0, m-1), g.R.Range(0, m-1), g.vIndex(vz)
 		var ids []string
 		np := 1 + g.R.Intn(3)
-		if g.R.Chance(1, 30) {
-			np = 6 + g.R.Intn(10) // many parent groups
+		if g.R.Chance(1, 15) {
+			np = 6 + g.R.Intn(10) // many parent groups (with a two-level gap somewhere: several thousand unit cells)
 		}
 		for i := 0; i < np; i++ {
 			keep := 9
@@ -501,7 +501,7 @@ func init() {
 			}
 			sib := g.siblings(hz, mod(px+int64(i), m), py, vz, pz, keep, 10)
 			// sometimes replace one child by its own 8 children (finer input, bigger unit division)
-			if len(sib) > 0 && g.R.Chance(1, 4) && hz+2 <= 35 && vz+2 <= 35 {
+			if len(sib) > 0 && (g.R.Chance(1, 4) || np >= 6 && i == 0) && hz+2 <= 35 && vz+2 <= 35 {
 				j := g.R.Intn(len(sib))
 				a := parseInts(sib[j])
 				sib = append(sib[:j], sib[j+1:]...)
